@@ -24,7 +24,8 @@ void Executor::op_query(const Op& op, TaskCtx& t) {
   else if (what == "dumpbasis") {   // debugging aid for replays: print what the basis queries return
     auto& s = *o->s; std::vector<int> r, c, b; s.getBasis(r, c); s.getBasisInd(b, s.numRows() + 4);
     fprintf(stderr, "[dumpbasis] hasBasis=%d basisStatus=%d rows=%d cols=%d rowstat:", (int)s.hasBasis(), s.basisStatus(), s.numRows(), s.numCols());
-    for (int v : r) fprintf(stderr, " %d", v); fprintf(stderr, " colstat:"); for (int v : c) fprintf(stderr, " %d", v); fprintf(stderr, " bind:"); for (int v : b) fprintf(stderr, " %d", v); fprintf(stderr, "\n");
+    for (int v : r) fprintf(stderr, " %d", v); fprintf(stderr, " colstat:"); for (int v : c) fprintf(stderr, " %d", v); fprintf(stderr, " bind:"); for (int v : b) fprintf(stderr, " %d", v);
+    fprintf(stderr, " colbounds:"); for (int j = 0; j < s.numCols(); j++) fprintf(stderr, " [%g,%g]", s.lower(j), s.upper(j)); fprintf(stderr, " model:"); for (int j = 0; j < o->lp.ncols(); j++) fprintf(stderr, " [%s,%s]", o->lp.lo[j].str().c_str(), o->lp.up[j].str().c_str()); fprintf(stderr, "\n");
   }
 }
 
@@ -68,9 +69,9 @@ void Executor::check_accessors(Obj& o) {
     }
     int mz = 0; for (int j = 0; j < lp.ncols(); j++) if (lp.A[i][j] != 0) mz++;
     if (nz != mz) { viol(prop, "accessor_rowvec", "row " + std::to_string(i) + " has " + std::to_string(nz) + " nonzeros, model " + std::to_string(mz), ctx); return; }
-    int rt = s.rowType(i);   // LPRowBase::Type: LESS_EQUAL=0, EQUAL=1, GREATER_EQUAL=2, RANGE=3
-    int want = (lp.lhs[i].finite() && lp.rhs[i].finite()) ? (lp.lhs[i] == lp.rhs[i] ? 1 : 3) : lp.lhs[i].finite() ? 2 : lp.rhs[i].finite() ? 0 : 3;
-    if (rt != want && !(want == 3 && !lp.lhs[i].finite() && !lp.rhs[i].finite())) { viol(prop, "accessor_rowtype", "rowTypeReal(" + std::to_string(i) + ")=" + std::to_string(rt) + " model " + std::to_string(want), ctx); return; }
+    int rt = s.rowType(i);   // LPRowBase::Type: LESS_EQUAL=0, EQUAL=1, GREATER_EQUAL=2, RANGE=3 (two different rationals may share one double image, verified above: the real LP then holds an equation)
+    int want = (lp.lhs[i].finite() && lp.rhs[i].finite()) ? ((lp.lhs[i] == lp.rhs[i] || (o.ever_rational && s.lhs(i) == s.rhs(i))) ? 1 : 3) : lp.lhs[i].finite() ? 2 : lp.rhs[i].finite() ? 0 : 3;
+    if (rt != want && !(want == 3 && !lp.lhs[i].finite() && !lp.rhs[i].finite())) { viol(prop, "accessor_rowtype", "rowTypeReal(" + std::to_string(i) + ")=" + std::to_string(rt) + " model " + std::to_string(want) + " (lhsReal " + dstr(s.lhs(i)) + " rhsReal " + dstr(s.rhs(i)) + ", model lhs " + lp.lhs[i].str() + " rhs " + lp.rhs[i].str() + ")", ctx); return; }
   }
 }
 
